@@ -80,6 +80,7 @@ def find_chain(uni, sk, yk, end_pos=None, stop_at=None):
     stop_b = None if stop_at is None else uni.pts[stop_at][0].tobytes()
     ends = [end_pos] if end_pos is not None else list(range(len(uni.pts) - 1, -1, -1))
     best = ([], 0)
+    best_rank = (-1, -1)
     for e in ends:
         if e is None:
             continue
@@ -87,7 +88,7 @@ def find_chain(uni, sk, yk, end_pos=None, stop_at=None):
         cur = e
         matched = 0
         for i in range(m - 1, -1, -1):
-            if stop_at is not None and uni.pts[cur][0].tobytes() == stop_b:
+            if stop_b is not None and uni.pts[cur][0].tobytes() == stop_b:
                 break
             nxt = None
             for q in range(cur - 1, -1, -1):
@@ -99,8 +100,12 @@ def find_chain(uni, sk, yk, end_pos=None, stop_at=None):
             chain.append(nxt)
             cur = nxt
             matched += 1
-        if matched > best[1] or (matched == best[1] and not best[0]):
-            best = (chain, matched)
-        if matched == m or (stop_at is not None and uni.pts[cur][0].tobytes() == stop_b):
+        if matched == m:
             return chain, matched
+        reached = stop_b is not None and uni.pts[cur][0].tobytes() == stop_b
+        # prefer chains that explain more pairs; among equals, one that reached the restart point
+        rank = (matched, 1 if reached else 0)
+        if rank > best_rank:
+            best_rank = rank
+            best = (chain, matched)
     return best
